@@ -57,6 +57,10 @@ SPECIAL = [
     "p'a' pf'b{c}'\n",
     "pf'a{b}' 'c'\n",
     "x = f'{a}' pf'{b}'\n",
+    # every position of a p / pf part in an implicit concatenation, followed (in sequences) by statements that open with
+    # a plain string, an f-string, a string nested in an f-string field
+    "a = '/usr/' pf'{name}'\n", "b = f'{x}!'\n", "c = f\"{'in'}\" 't'\n", "d = pf'a' f\"{'x'}\"\n", "e = 's' f'{t}' pf'{u}' 'v'\n", "def g():\n    return f'{q}' 'r'\n",
+    "with! m: \n    body\n", "with! m:  # note\n    body\n", "f!(a \\\n b, c)\n", "$(echo! a \\\n  b)\n",
     "$(echo!)\n",
     "![make!]\n",
     "r = !(sudo! )\n",
